@@ -65,7 +65,7 @@ pub fn same_modulo_type_structure(a: &Relation, b: &Relation) -> bool {
             _ => None }
     }
     // `null` (no value at all: the relation cannot have rows) on one side, any other spelling (`option(null)`, `option(any)`) on the other
-    let void = |t: &DataType| matches!(t, DataType::Null) || matches!(t, DataType::Optional(o) if matches!(o.data_type(), DataType::Null));
+    let void = |t: &DataType| matches!(t, DataType::Null) || matches!(t, DataType::Optional(o) if matches!(o.data_type(), DataType::Null)) || { let s = t.to_string(); s == "∅" || s == "option(∅)" };
     let same_set = |x: &DataType, y: &DataType| x.to_string() == y.to_string() || x == y || void(x) || void(y) || matches!((ints(x), ints(y)), (Some(p), Some(q)) if p == q && matches!(x, DataType::Optional(_)) == matches!(y, DataType::Optional(_)));
     a.schema().len() == b.schema().len() && a.size() == b.size()
         && a.schema().iter().zip(b.schema().iter()).all(|(x, y)| x.name() == y.name() && same_set(&x.data_type(), &y.data_type()))
@@ -112,6 +112,8 @@ pub fn eval(case: &J) -> Outcome {
         r }) }).collect();
     for h in handles { match h.join() { Ok(r) => again("concurrent", r, &mut out), Err(_) => out.fail(&format!("C16/determ/outcome-differs/concurrent/{cls}"), format!("{sql}: thread died")) } }
     // fixpoint: compile the rendered text
+    // (when the rendering itself declares one CTE name twice with different bodies, everything downstream is the known name collision)
+    let cls = if crate::s_dialect::duplicate_cte_class(&t1) == "cte-name-collision" { "cte-name-collision" } else { cls };
     let sig1 = schema_sig(&r1);
     let r4 = match compile(&t1) {
         Ok(Ok(r)) => r,
